@@ -472,9 +472,9 @@ PATH_ILL = [("l", 8), ("l", b"x", 16), ("re", 8, 16, 16), ("c", 1, 2, 3, 4, 5), 
 
 BOUNDS = {
     "quick": {"gs_depth": {"all": 3, "core": 4}, "gs_shard_depth": {"all": 1, "core": 2}, "path_len_curves": 4, "path_len_lines": 5,
-              "ill_len": 3, "pages_len": 3, "batch": 24, "lines_ends": ["S", "b", "f*", "n"], "lines_ctm_ends": ["b*"]},
+              "ill_len": 3, "pages_len": 4, "batch": 24, "lines_ends": list(PAINT) + ["n"], "lines_ctm_ends": ["S", "b*"]},
     "thorough": {"gs_depth": {"all": 4, "core": 5}, "gs_shard_depth": {"all": 2, "core": 2}, "path_len_curves": 5, "path_len_lines": 6,
-                 "ill_len": 4, "pages_len": 4, "batch": 24, "lines_ends": list(PAINT) + ["n"], "lines_ctm_ends": ["S", "b*"]},
+                 "ill_len": 3, "pages_len": 4, "batch": 24, "lines_ends": list(PAINT) + ["n"], "lines_ctm_ends": ["S", "b*"]},
 }
 
 META = {
